@@ -17,7 +17,9 @@ import (
 )
 
 // C18 — Ethereum transactions through the Cosmos envelope. Op (shared with lean/HaqqModel/Driver/C18.lean):
-//   tx typ chain nonce gas gasPrice tip cap to value data access v r s baseFee # key=<k> unprot=<0|1>
+//
+//	tx typ chain nonce gas gasPrice tip cap to value data access v r s baseFee # key=<k> unprot=<0|1>
+//
 // (v r s are filled in by the executor after signing).  The executor signs, wraps (FromEthereumTx), builds and
 // encodes the Cosmos tx, decodes it, unwraps (AsTransaction) and prints the decoded TxData fields and figures.
 func init() {
